@@ -80,6 +80,7 @@ struct Outcome {
     opaque_closures: Vec<String>,
     fp: String,
     is_parser: bool,
+    stable_head: String,
 }
 
 fn json_str(s: &str) -> String {
@@ -342,6 +343,7 @@ fn translate_one(fns: &BTreeMap<String, FnInfo>, uses: &HashMap<String, Uses>, c
     };
     let fp = fingerprint_fn(&f.item);
     let mut is_parser = false;
+    let mut stable_head = String::new();
     let def = (|| -> R<String> {
         let sig = &f.item.sig;
         let lname = lean_fn_name(&f.module, &f.name);
@@ -403,7 +405,12 @@ fn translate_one(fns: &BTreeMap<String, FnInfo>, uses: &HashMap<String, Uses>, c
                 }
                 let pty = pty.ok_or("combinator parameter without an FnMut bound")?;
                 let _ = write!(binders, " ({} : {pty})", Tr::local_name(n));
+                let _ = write!(stable_head, " ({} : {pty}) [Stable {}]", Tr::local_name(n), Tr::local_name(n));
                 scope.insert(n.clone());
+            }
+            {
+                let args: Vec<String> = params.iter().map(|(n, _)| Tr::local_name(n)).collect();
+                stable_head = format!("instance{stable_head} : Stable ({lname} {})", args.join(" "));
             }
             tr.locals.push(scope);
             let body = &f.item.block;
@@ -425,10 +432,28 @@ fn translate_one(fns: &BTreeMap<String, FnInfo>, uses: &HashMap<String, Uses>, c
             is_parser = true;
             let (input, _) = params.last().ok_or("parser without input parameter")?.clone();
             let mut scope = HashSet::new();
+            let mut sb = String::new();
+            let mut sargs: Vec<String> = vec![];
+            if let Some((_, _, fix)) = cfg.recroot.get(key) {
+                sargs.push(fix.clone());
+            } else if let Some(root) = cfg.recmember.get(key) {
+                sargs.push(cfg.recroot[root].2.clone());
+            }
             for (n, t) in &params[..params.len() - 1] {
                 let _ = write!(binders, " ({} : {})", Tr::local_name(n), tr.ty(t)?);
+                let _ = write!(sb, " ({} : {})", Tr::local_name(n), tr.ty(t)?);
+                sargs.push(Tr::local_name(n));
                 scope.insert(n.clone());
             }
+            let mut tps = String::new();
+            let mut tpa = String::new();
+            for gp in &sig.generics.params {
+                if let syn::GenericParam::Type(tp) = gp {
+                    let _ = write!(tps, " {{{} : Type}}", tp.ident);
+                    let _ = write!(tpa, " ({} := {})", tp.ident, tp.ident);
+                }
+            }
+            stable_head = format!("instance{tps}{sb} : Stable ({lname}{tpa} {})", sargs.join(" "));
             tr.locals.push(scope);
             let mut rty = tr.ty(ret)?;
             if let Some(o) = cfg.rettype.get(key) {
@@ -458,7 +483,7 @@ fn translate_one(fns: &BTreeMap<String, FnInfo>, uses: &HashMap<String, Uses>, c
         };
         Ok(format!("def {lname}{binders} : {rty} :=\n  {body}\n"))
     })();
-    Outcome { def, callees: tr.callees, opaque_closures: tr.opaque_closures, fp, is_parser }
+    Outcome { def, callees: tr.callees, opaque_closures: tr.opaque_closures, fp, is_parser, stable_head }
 }
 
 fn vh_translate_main(src: &str, cfgpath: &str, out_parser: &str, out_tie: &str, out_report: &str) {
@@ -664,14 +689,40 @@ fn vh_translate_main(src: &str, cfgpath: &str, out_parser: &str, out_tie: &str, 
         if let Some(ex) = cfg.tie_extra.get(k) {
             lemmas.extend(ex.clone());
         }
-        let proof = match cfg.tie_proof.get(k) {
-            Some(pf) => pf.replace("%LEMMAS%", &lemmas.join(", ")),
-            None => format!("  gen_tie {lname}, {cp} with [{}]", lemmas.join(", ")),
+        // a proof that does not go through is closed with `sorry` (a warning, so that the module and its
+        // dependents still build); the axiom audit of ./check then shows `sorryAx` exactly in the theorems
+        // that depend on the failed tie
+        let body = match cfg.tie_proof.get(k) {
+            Some(pf) => pf.replace("%LEMMAS%", &lemmas.join(", ")).lines().map(|l| format!("    {l}")).collect::<Vec<_>>().join("\n"),
+            None => format!("      gen_tie {lname}, {cp} with [{}]", lemmas.join(", ")),
         };
+        let proof = format!("  first\n  | (\n{body}\n      done\n    )\n  | sorry");
         let _ = write!(t, "-- {k}\ntheorem {} : {stmt} := by\n{proof}\n\n", tie_name(k));
         tied.push(k.clone());
     }
     std::fs::write(out_tie, t).unwrap();
+
+    // StableGen.lean: `Stable` re-derived on the generated definitions themselves (instance search over the
+    // generated body; the tie theorem is only the fall-back for functions with hand-bound parts)
+    let mut sg = String::new();
+    sg.push_str("/- GENERATED by harness/vh-translate (rs2lean) - do not edit.\n   `Stable` (C01: no panic; C02: verdicts are final) for every generated parser function, by instance search\n   over the generated definition; where that fails, through the function's tie theorem. -/\n");
+    sg.push_str("import ImapVerif.Gen.Tie\nimport ImapVerif.Gen.StableComb\nopen Bytes Parser\nset_option synthInstance.maxSize 100000\nset_option synthInstance.maxHeartbeats 400000\nset_option maxRecDepth 4000\n\n");
+    for k in &emitted {
+        let o = &out[k];
+        if o.def.is_err() || !o.is_parser || o.stable_head.is_empty() {
+            continue;
+        }
+        let f = &fns[k];
+        let lname = lean_fn_name(&f.module, &f.name);
+        let via_tie = if tied.contains(k) {
+            format!("\n  | (first | rw [{}] | simp only [{}]); unfold Gen.fixBody Gen.fixBodyExt; infer_instance\n  | (first | rw [{}] | simp only [{}]); infer_instance", tie_name(k), tie_name(k), tie_name(k), tie_name(k))
+        } else {
+            String::new()
+        };
+        let _ = write!(sg, "-- {k}\n{} := by\n  first\n  | (unfold {lname}; infer_instance)\n  | (unfold {lname}; simp only [Gen.Tie.core_text]; infer_instance){via_tie}\n\n", o.stable_head);
+    }
+    let stable_path = std::path::Path::new(out_tie).with_file_name("StableGen.lean");
+    std::fs::write(stable_path, sg).unwrap();
 
     // reachability from parse_response
     let root = "parser::parse_response".to_string();
